@@ -250,7 +250,20 @@ fn c03_datagram_receive() {
     let b: [u8; 10] = kani::any();
     let len: usize = kani::any();
     kani::assume(len <= 10);
-    let wire = bytes::Bytes::copy_from_slice(&b[..len]);
+    // one allocation site per length (a symbolic-size Bytes allocation makes CBMC run out of memory)
+    let wire = match len {
+        0 => bytes::Bytes::copy_from_slice(&b[..0]),
+        1 => bytes::Bytes::copy_from_slice(&b[..1]),
+        2 => bytes::Bytes::copy_from_slice(&b[..2]),
+        3 => bytes::Bytes::copy_from_slice(&b[..3]),
+        4 => bytes::Bytes::copy_from_slice(&b[..4]),
+        5 => bytes::Bytes::copy_from_slice(&b[..5]),
+        6 => bytes::Bytes::copy_from_slice(&b[..6]),
+        7 => bytes::Bytes::copy_from_slice(&b[..7]),
+        8 => bytes::Bytes::copy_from_slice(&b[..8]),
+        9 => bytes::Bytes::copy_from_slice(&b[..9]),
+        _ => bytes::Bytes::copy_from_slice(&b[..10]),
+    };
     let got = h::datagram_read(wire);
     // reference varint decode
     let refd = if len == 0 {
@@ -376,7 +389,7 @@ fn c20_bind_address() {
     kani::cover!(!v6, "v4");
 }
 
-// @h props=C03,C04,C06,C20 tier=quick t=300 expect=fail sub=twin
+// @h props=C03,C04,C06,C20 tier=quick t=900 expect=fail sub=twin
 // @fn wtransport/src/driver/utils.rs varint_q2w
 // @bound twin: claims codes never exceed 2^32; must be refuted
 #[kani::proof]
